@@ -308,6 +308,27 @@ func (g *streamGen) history(profile string) []Playlist {
 			h = append(h, g.playlist(msn, w, k, false, ""))
 		}
 		h = append(h, g.playlist(msn, w, stall, true, ""))
+	case "endlist-burst":
+		// live (or EVENT) at join time; then, in ONE update, the list grows by several segments and ENDLIST is
+		// set: the next segment is more than clientLiveMaxDistanceFromEnd entries from the end of an ENDED
+		// playlist, which has no live edge to fall behind (round 10: C11-m13, the too-late check gated on the
+		// first playlist's ENDLIST flag)
+		w := 3 + r.Intn(6)
+		n := 1 + r.Intn(4)
+		typ := []string{"", "EVENT"}[r.Intn(2)]
+		for k := 0; k < n; k++ {
+			if typ == "EVENT" {
+				h = append(h, g.playlist(msn, w+k, k, false, typ))
+			} else {
+				h = append(h, g.playlist(msn+int64(k), w, k, false, typ))
+			}
+		}
+		burst := 4 + r.Intn(7)
+		last := h[len(h)-1]
+		total := len(last.Segs) + burst
+		for k := 0; k < total+2; k++ {
+			h = append(h, g.playlist(last.MSN, total, n+k, true, typ))
+		}
 	}
 	if g.uris.bad == -2 && len(h) > 0 {
 		// make one of the entries the client is likely to reach unparsable
@@ -401,6 +422,13 @@ func genCase(r *rng.R) Case {
 		c := Case{Profile: prof, Format: format}
 		ref := fmt.Sprintf(plStyles[r.Intn(len(plStyles))], "s0-pl.m3u8")
 		st := Stream{Ref: ref, History: g.history(prof)}
+		if f := r.Fork(0xb0057); f.Bool(1, 10) {
+			// drawn from a fork: the histories of a seed stay what they were
+			g.r = f
+			g.uris.bad = -1
+			c.Profile = "endlist-burst"
+			st.History = g.history("endlist-burst")
+		}
 		if r.Bool(1, 5) {
 			// through a multivariant playlist with a single variant
 			c.MasterURL = "http://stub.test/m/master.m3u8"
